@@ -1,2 +1,143 @@
--- stub: replaced by the C08 driver
-def main : IO Unit := pure ()
+/-
+  Driver.C08 — runs the C08 CodeModel (Golib.Step.*) on request lines.
+
+    E1 <layout> <rec>                 →  <hex>                       (write one record of a named single layout)
+    D1 <layout> <hex>                 →  ok <rec> <rest length> | fail
+    ES <item>|<item>|…                →  <hex>                       (ToBytesStep / service.ToBytes; item = <code>:<type>:<rec>)
+    DS <step|svc> <hex>               →  ok <code>:<rec>@<consumed>|… | fail <k>   (ReadStep until the input is used up)
+
+  rec  = name=val;name=val;…  ("-" when empty)
+  val  = i<int> | x<hex> | a<int,int,…> | n (nil map) | m<key hex>~<value>&…
+  value (inside maps) = N | B0 | B1 | D<int> | I<int> | L<int> | F<bits> | G<bits> | T<hex> | H<int> | X<hex>
+                      | V<hex of the wire form>   (any other value)
+-/
+import Golib.Step.Layouts
+import Driver.Common
+
+open Step Drv
+
+def tailS (s : String) : String := String.ofList (s.toList.drop 1)
+def head? (s : String) : Option Char := s.toList.head?
+
+def parseValue (s : String) : Option Value :=
+  let p := tailS s
+  match head? s with
+  | some 'N' => some .null
+  | some 'B' => some (.bool (p == "1"))
+  | some 'D' => (parseInt p).map .dec
+  | some 'I' => (parseInt p).map .int
+  | some 'L' => (parseInt p).map .long
+  | some 'F' => (parseNat p).map .f32
+  | some 'G' => (parseNat p).map .f64
+  | some 'T' => (ofHex p).map .text
+  | some 'H' => (parseInt p).map .hash
+  | some 'X' => (ofHex p).map .blob
+  | some 'V' => (ofHex p).bind (fun bs => (Value.decode bs).map (·.1))
+  | _ => none
+
+def showValue : Value → String
+  | .null => "N"
+  | .bool b => if b then "B1" else "B0"
+  | .dec v => s!"D{v}"
+  | .int v => s!"I{v}"
+  | .long v => s!"L{v}"
+  | .f32 b => s!"F{b}"
+  | .f64 b => s!"G{b}"
+  | .text bs => s!"T{hexOf bs}"
+  | .hash v => s!"H{v}"
+  | .blob bs => s!"X{hexOf bs}"
+  | v => s!"V{hexOf (Value.encV v)}"
+
+def parseEntry (s : String) : Option (Bytes × Value) :=
+  match s.splitOn "~" with
+  | [k, v] => do
+    let k ← ofHex k
+    let v ← parseValue v
+    pure (k, v)
+  | _ => none
+
+def parseVal (s : String) : Option Val :=
+  let p := tailS s
+  match head? s with
+  | some 'i' => (parseInt p).map .i
+  | some 'x' => (ofHex p).map .b
+  | some 'a' => (parseList parseInt p).map .is
+  | some 'n' => some (.m none)
+  | some 'm' => if p == "-" then some (.m (some [])) else ((p.splitOn "&").mapM parseEntry).map (fun kvs => .m (some kvs))
+  | _ => none
+
+def showVal : Val → String
+  | .i v => s!"i{v}"
+  | .b bs => s!"x{hexOf bs}"
+  | .is xs => s!"a{listOf toString xs}"
+  | .m none => "n"
+  | .m (some kvs) =>
+    if kvs.isEmpty then "m-" else "m" ++ "&".intercalate (kvs.map (fun (k, v) => s!"{hexOf k}~{showValue v}"))
+
+def parseField (s : String) : Option (String × Val) :=
+  match s.splitOn "=" with
+  | [nm, v] => (parseVal v).map (fun v => (nm, v))
+  | _ => none
+
+def parseRec (s : String) : Option Rec :=
+  if s == "-" then some (fun _ => .i 0) else
+  ((s.splitOn ";").mapM parseField).map (fun (e : Env) => fun nm => e.get nm)
+
+def showRec (l : L) (e : Env) : String :=
+  let fs := l.fieldShapes
+  if fs.isEmpty then "-" else ";".intercalate (fs.map (fun (nm, s) => s!"{nm}={showVal (e.val nm s)}"))
+
+def allTagged : List (Nat × String × L) := stepTable ++ unregisteredSteps ++ serviceTable
+
+def layoutByName (nm : String) : Option L :=
+  match singles.lookup nm with
+  | some l => some l
+  | none => (allTagged.find? (fun (_, n, _) => n == nm)).map (fun (_, _, l) => l)
+
+def parseItem (s : String) : Option Item :=
+  match s.splitOn ":" with
+  | [c, t, r] => do
+    let c ← parseNat c
+    let l ← layoutByName t
+    let x ← parseRec r
+    pure ⟨c, l, x⟩
+  | _ => none
+
+/-- ReadStep until the input is used up; reports how many bytes each step consumed -/
+def decodeAll (tbl : List (Nat × String × L)) : Nat → Nat → List String → Bytes → String
+  | _, _, acc, [] => "ok " ++ (if acc.isEmpty then "-" else "|".intercalate acc.reverse)
+  | 0, _, acc, _ :: _ => s!"fail {acc.length}"
+  | f+1, len, acc, b :: bs =>
+    match readOne tbl (b :: bs) with
+    | none => s!"fail {acc.length}"
+    | some ((c, e), r) =>
+      let rl := r.length
+      let l := (lookupLayout tbl c).getD .nil
+      decodeAll tbl f rl (s!"{c}:{showRec l e}@{len - rl}" :: acc) r
+
+def answer (line : String) : String :=
+  match line.splitOn " " with
+  | ["E1", nm, r] =>
+    match layoutByName nm, parseRec r with
+    | some l, some x => hexOf (l.write x)
+    | _, _ => "bad-op"
+  | ["D1", nm, hex] =>
+    match layoutByName nm, ofHex hex with
+    | some l, some bs =>
+      match l.read [] bs with
+      | some (e, rest) => s!"ok {showRec l e} {rest.length}"
+      | none => "fail"
+    | _, _ => "bad-op"
+  | ["ES", items] =>
+    match (if items == "-" then some [] else (items.splitOn "|").mapM parseItem) with
+    | some ss => hexOf (toBytesStep ss)
+    | none => "bad-op"
+  | ["DS", fam, hex] =>
+    match ofHex hex with
+    | some bs =>
+      let tbl := if fam == "svc" then serviceTable else stepTable
+      decodeAll tbl bs.length bs.length [] bs
+    | none => "bad-op"
+  | _ => "bad-op"
+
+def main : IO Unit := statelessLoop answer
